@@ -29,10 +29,10 @@ documents or indexes, or on the nesting of filters)
   * `C12.index_create_atomic` – a rejected `Index` returns the state it was given, literally, in every state;
   * `C12.rejected_before_write` – without any hypothesis: whenever the *checks* of `Store`/`Swap` reject (missing id,
     duplicate id, unknown id, a conflicting unique key in any index), the state is returned untouched.
-Not proved (kept as `def … : Prop`): `C12.unique_keys_full` (no two stored documents admitted by a unique index share its
-key tuple – needs the completeness half of the index invariant); exercised by the harness oracle after every call.
+  * `C12.unique_keys` – every history: for each unique index, the key tuples of the stored documents it admits are
+    pairwise distinct (via the full index invariant of Proofs/IndexInv.lean: exact, admitted, complete, unique leaves).
 -/
-import Uniflow.Proofs.Consistent
+import Uniflow.Proofs.IndexInv
 
 open Uniflow.Value Uniflow.Store Uniflow.Query Uniflow.Plan Uniflow.Index
 
@@ -125,3 +125,24 @@ def C12.unique_keys_full : Prop :=
   ∀ (ops : List Op), let s := run Uniflow.Index.init ops
     ∀ idx ∈ s.indexes, idx.unique = true → idx.keys ≠ [] →
       s.docs.Pairwise (fun a b => idx.admits a.2 = true → idx.admits b.2 = true → tupCmp (idx.tuple a.2) (idx.tuple b.2) ≠ 0)
+
+/-- **unique_keys**: in every reachable state, for each unique index, the key tuples of the stored documents it admits
+are pairwise distinct. -/
+theorem C12.unique_keys : C12.unique_keys_full := by
+  intro ops s idx hi hu hk
+  have hf : Full s := Full_run ops Full_init
+  refine List.Pairwise.imp_of_mem ?_ (Asc_distinct hf.cons.asc)
+  intro a b ha hb hne hada hadb ht
+  obtain ⟨ea, hea, ha1, ha2⟩ := hf.complete idx hi hk a ha hada
+  obtain ⟨eb, heb, hb1, hb2⟩ := hf.complete idx hi hk b hb hadb
+  have hab : tupCmp ea.1 eb.1 = 0 := tupCmp_zero_trans ha2 (tupCmp_zero_trans ht (tupCmp_zero_symm hb2))
+  have hid := hf.uniq idx hi hu ea hea eb heb hab
+  exact hne (cmp_zero_trans (cmp_zero_symm ha1) (cmp_zero_trans hid hb1))
+
+/-- a unique index over `a` holding two documents is reachable, so the statement is not vacuous -/
+theorem C12.unique_keys_nonvacuous :
+    ∃ ops, ((run Uniflow.Index.init ops).indexes.filter (·.unique)).length = 2 ∧ (run Uniflow.Index.init ops).docs.length = 2 :=
+  ⟨[.index [.str [97]] true none,
+    .insert [.cons (.str [105, 100]) (.int .native 1) (.cons (.str [97]) (.int .native 7) .nil)],
+    .insert [.cons (.str [105, 100]) (.int .native 2) (.cons (.str [97]) (.int .native 8) .nil)],
+    .insert [.cons (.str [105, 100]) (.int .native 3) (.cons (.str [97]) (.int .native 8) .nil)]], by decide, by decide⟩
